@@ -27,6 +27,8 @@ def props_for(files):
 def main():
     rid = sys.argv[1]
     src = f"/tmp/seeded/{rid}"
+    if not os.path.exists(os.path.join(src, "meta.json")):
+        src = os.path.join(ROOT, "seeded", rid)
     meta = json.load(open(os.path.join(src, "meta.json")))
     wt = meta.get("worktree", f"/tmp/wt-{rid}")
     env = dict(os.environ, CARGO_NET_OFFLINE="true", CARGO_TARGET_DIR=os.path.join(wt, "target"))
@@ -35,7 +37,8 @@ def main():
     out = []
     for pinfo in meta["patches"]:
         pf = os.path.join(src, pinfo["file"])
-        shutil.copy(pf, os.path.join(dst, pinfo["file"]))
+        if os.path.abspath(pf) != os.path.abspath(os.path.join(dst, pinfo["file"])):
+            shutil.copy(pf, os.path.join(dst, pinfo["file"]))
         files = re.findall(r"^\+\+\+ b/(\S+)", open(pf).read(), re.M)
         rec = {"patch": pinfo["file"], "what": pinfo.get("what"), "files": files, "checks": []}
         if "--no-suite" not in sys.argv and os.path.isdir(wt):
@@ -63,6 +66,20 @@ def main():
         rec["undecided"] = [c["property"] for c in rec["checks"] if c["exit"] == 2]
         out.append(rec)
         print(pinfo["file"], "files", files, "->", [(c["property"], c["exit"]) for c in rec["checks"]])
+    # keep what earlier runs established (suite results; the first run's check results)
+    prev = {}
+    if os.path.exists(os.path.join(dst, "meta.json")):
+        try:
+            prev = {r["patch"]: r for r in json.load(open(os.path.join(dst, "meta.json"))).get("results", [])}
+        except (OSError, json.JSONDecodeError, KeyError):
+            prev = {}
+    for rec in out:
+        o = prev.get(rec["patch"])
+        if o:
+            for k in ("patch_applies", "suite_passes_with_patch", "suite_tests_passed"):
+                if k in o and k not in rec:
+                    rec[k] = o[k]
+            rec["first_run_checks"] = o.get("first_run_checks", o.get("checks"))
     meta["results"] = out
     json.dump(meta, open(os.path.join(dst, "meta.json"), "w"), indent=1)
 main()
